@@ -84,6 +84,7 @@ type scanEngine struct {
 	tmplCut  []string
 	tmplAt   []string
 	post     []*CExpr // property postconditions of Lex (checked at every return)
+	prePost  []*CExpr // postconditions checked at every return before the ghost updates of the contract are applied
 	inline   map[string]bool
 	totalSwitch []string // fields of Lexer whose switch statements are assumed total (listed assumption)
 	assumedEdges map[string]bool
@@ -161,6 +162,12 @@ func newScanEngine(w *World, props []string) (*scanEngine, error) {
 				return nil, fmt.Errorf("scan post %q: %v", rest, err)
 			}
 			se.post = append(se.post, e)
+		case "post-before-ghost":
+			e, err := parseCExpr(rest)
+			if err != nil {
+				return nil, fmt.Errorf("scan post-before-ghost %q: %v", rest, err)
+			}
+			se.prePost = append(se.prePost, e)
 		case "inline-join":
 			se.inline[rest] = true
 		case "assume-total-switch":
@@ -880,6 +887,15 @@ func (wk *scanWalker) atReturn(ret retInfo, from *ssa.BasicBlock) {
 	fc.params = map[string]TV{}
 	fc.result = ret.val
 	b["result"] = TV{ret.val, se.fn.Signature.Results().At(0).Type()}
+	for k, e := range se.prePost {
+		t := x.evalBool(fc, st, e, b)
+		x.oblige(st, fmt.Sprintf("tile:%d", k), wk.lastLabel+":"+e.String(), se.fn.Pos(), t, nil)
+	}
+	if se.con != nil {
+		for _, g := range se.con.GhostRet {
+			x.applyGhostB(fc, st, st, g, b)
+		}
+	}
 	var posts []*CExpr
 	if se.con != nil {
 		posts = append(posts, se.con.Ensures...)
